@@ -36,6 +36,19 @@ class Member:
         self.full = cap if full is None else full
         self.img = [canary(i) for i in range(self.full)]
 
+    def growable(self):
+        return self.kind in (0, 4, 5)
+
+    def grow(self, newcap):
+        """a growing reserve: the initialised bytes move to a new allocation of `newcap` bytes;
+        the harness refills the spare part with canaries"""
+        self.img = self.img[:self.rlen] + [canary(i) for i in range(self.rlen, newcap)]
+        self.cap = self.full = newcap
+
+    def bump(self, off, ln):
+        for i in range(off, off + ln):
+            self.img[i] = (self.img[i] + 1) % 256
+
     def set_capacity(self, n):
         """BufferRef::set_capacity: nothing for 0, else capacity = min(n, full size) and the
         length is cut down to it; the content stays"""
@@ -94,6 +107,24 @@ class Window:
             raise Leave
         self.write(j, k)
         self.m.rlen = max(self.m.rlen, o + k)
+        if k > 0 and self.has_uninit:
+            self.filled_after_uninit = True
+
+    def reserve_ok(self, k):
+        """IoBufMut::reserve per the text: a fixed-capacity buffer accepts a request iff it fits
+        into the SPARE capacity (capacity - initialised length); a growable one always; a slice
+        with an end refuses (documented: "Cannot reserve on a fixed-size slice")"""
+        if self.E is not None:
+            return False
+        return self.m.growable() or k <= self.m.cap - self.m.rlen
+
+    def extend(self, j, k):
+        """extend_from_slice of k bytes that reserve accepted: appended behind the initialised
+        bytes of the view"""
+        o, l, c = self.rng()
+        for i in range(k):
+            self.m.img[o + l + i] = pat(j, i)
+        self.m.rlen = max(self.m.rlen, o + l + k)
         if k > 0 and self.has_uninit:
             self.filled_after_uninit = True
 
@@ -197,7 +228,7 @@ def gen_root(rng, vectored=False):
     return kind, ln, cap
 
 
-def gen_steps(rng, adv, w, flat_bias=False):
+def gen_steps(rng, adv, w, flat_bias=False, rsv_bias=False, view_bias=False):
     """steps of a buffer / pool case over the window `w` (its member gives kind and sizes)"""
     kind, cap = w.m.kind, w.m.full
     steps = []
@@ -214,6 +245,25 @@ def gen_steps(rng, adv, w, flat_bias=False):
             r = 0.99
         if kind == 0 and wild and rng.random() < 0.85:
             wild = False
+        if alive and rng.random() < (0.45 if rsv_bias else 0.08):
+            # reserve family: request around the spare capacity / the capacity
+            spare = max(w.m.cap - w.m.rlen, 0)
+            k = rng.choice([0, 1, max(spare - 1, 0), spare, spare, spare + 1, spare + 1, w.m.cap, w.m.cap + 1,
+                            w.m.cap + 5, rng.randrange(0, w.m.cap + 3)])
+            code = rng.choice([8, 8, 8, 9, 10, 10])
+            steps.append((code, k, 0))
+            ok = w.reserve_ok(k)
+            if ok and w.m.growable() and k > spare:
+                # generator-side guess of the new capacity (the oracle reads it from the output)
+                w.m.grow(max(8, 2 * w.m.cap, w.m.rlen + k))
+            if code != 9:
+                if ok:
+                    w.extend(j, k)
+                j += 1
+            continue
+        if rng.random() < (0.35 if view_bias else 0.08):
+            steps.append((rng.choice([11, 11, 12]), 0, 0))
+            continue
         nested = w.layers[-2:] == ['S', 'S']
         if nested and rng.random() < (0.6 if flat_bias else 0.35):
             steps.append((6, 0, 0))
@@ -287,11 +337,47 @@ def gen_steps(rng, adv, w, flat_bias=False):
 def gen_buffer(rng, adv):
     kind, ln, cap = gen_root(rng)
     flat_bias = rng.random() < 0.25
+    mode = rng.random()
+    if mode < 0.14:
+        return gen_reserve(rng, kind)
+    view_bias = mode < 0.24
     if flat_bias and cap < 4 and not fixed(kind) and kind != 4:
         cap = rng.choice([6, 9, 12])
         ln = rng.choice([cap, rng.randrange(cap // 2, cap + 1)])
     w = Window(Member(kind, ln, cap))
-    steps = gen_steps(rng, adv, w, flat_bias)
+    steps = gen_steps(rng, adv, w, flat_bias, False, view_bias)
+    case = [1, kind, ln, cap, len(steps)]
+    for s in steps:
+        case += list(s)
+    return case
+
+
+def gen_reserve(rng, kind):
+    """class C10-a: every root kind x (len, cap, chunk): partly filled, empty, full; requests of 0,
+    spare-1, spare (exact fit), spare+1, cap, cap+1; through the root, slice(b..), uninit()"""
+    if kind in (1, 3):
+        cap = rng.choice([1, 2, 4, 7, 8, 12, 16])
+    elif kind == 4:
+        cap = rng.choice([4, 5, 8, 12])
+    else:
+        cap = rng.choice([1, 2, 3, 5, 8, 10, 12])
+    ln = cap if fixed(kind) else rng.choice([0, cap, rng.randrange(0, cap + 1), rng.randrange(1, cap + 1) - 1])
+    w = Window(Member(kind, ln, cap))
+    pre = []
+    r = rng.random()
+    if r < 0.2 and ln > 0:
+        b = rng.randrange(0, ln + 1)
+        pre.append((1, b, 0))
+        w.slice(b, None)
+    elif r < 0.3:
+        pre.append((2, 0, 0))
+        w.uninit()
+    elif r < 0.36:
+        b = rng.randrange(0, ln + 1)
+        e = rng.randrange(b, cap + 2)
+        pre.append((1, b, e + 1))
+        w.slice(b, e)
+    steps = pre + gen_steps(rng, False, w, False, True, False)[:rng.randrange(1, 5)]
     case = [1, kind, ln, cap, len(steps)]
     for s in steps:
         case += list(s)
@@ -389,9 +475,11 @@ def gen_vectored(rng, adv):
             elif r < 0.92:
                 steps.append((11, 0))
                 wrapped = True
-            elif r < 0.96:
+            elif r < 0.94:
                 steps.append((12, rng.randrange(0, cap_i + 2)))
                 wrapped = True
+            elif r < 0.985:
+                steps.append((13, rng.choice([0, 1, cap_i, cap_i + 1, rng.randrange(0, cap_i + 2)])))
             else:
                 steps.append((6, 0))
     case = [2, cont, nm]
@@ -420,13 +508,27 @@ def describe(case):
         flat = ""
         try:
             ns = case[4]
-            if any(case[5 + 3 * i] == 6 for i in range(ns)):
+            codes = [case[5 + 3 * i] for i in range(ns)]
+            if 6 in codes:
                 flat = "+flatten"
+            if any(x in codes for x in (8, 9, 10)):
+                flat += "+reserve"
+            if any(x in codes for x in (11, 12)):
+                flat += "+views"
         except IndexError:
             pass
         return "buffer:" + KIND_NAMES.get(case[1], "?") + flat
     if case[:1] == [3] and len(case) > 1:
-        return "pool:" + {0: "polling", 1: "io_uring"}.get(case[1], "?")
+        extra = ""
+        try:
+            codes = [case[4 + 3 * i] for i in range(case[3])]
+            if any(x in codes for x in (8, 9, 10)):
+                extra += "+reserve"
+            if any(x in codes for x in (11, 12)):
+                extra += "+views"
+        except IndexError:
+            pass
+        return "pool:" + {0: "polling", 1: "io_uring"}.get(case[1], "?") + extra
     if case[:1] == [2] and len(case) > 1:
         return "vectored:" + CONT_NAMES.get(case[1], "?")
     return "?"
@@ -441,11 +543,12 @@ def nontrivial(case, impl_out):
             p = 4 if case[0] == 1 else 3
             ns = case[p]
             st = case[p + 1:p + 1 + 3 * ns]
-            return any(st[3 * i] in (3, 4, 5) and st[3 * i + 1] > 0 for i in range(ns))
+            return any((st[3 * i] in (3, 4, 5, 8, 10) and st[3 * i + 1] > 0) or st[3 * i] in (9, 11, 12)
+                       for i in range(ns))
         nm = case[2]
         p = 3 + 3 * nm
         ns = case[p]
         st = case[p + 1:p + 1 + 2 * ns]
-        return any(st[2 * i] in (3, 4, 6, 7, 9) and st[2 * i + 1] > 0 for i in range(ns))
+        return any(st[2 * i] in (3, 4, 6, 7, 9, 13) and st[2 * i + 1] > 0 for i in range(ns))
     except IndexError:
         return False
